@@ -488,6 +488,32 @@ Fixpoint d_alg (fuel : nat) (t : tr) : option alg :=
       end
   end.
 
+(* decidable check that history h' is h with some rewarded entries replaced by the DNA as it was before feedback
+   (the hypothesis of theorem C15_recover_from_stored_proposals, evaluated on every generated case) *)
+Definition oeqb {A} (f : A -> A -> bool) (a b : option A) : bool :=
+  match a, b with Some x, Some y => f x y | None, None => true | _, _ => false end.
+Definition dna_eqb (a b : dna) : bool :=
+  (dval a =? dval b)%Z && oeqb Z.eqb (dpid a) (dpid b) && oeqb Z.eqb (dgid a) (dgid b) && oeqb Bool.eqb (dini a) (dini b)
+  && oeqb Z.eqb (dfsn a) (dfsn b) && oeqb Z.eqb (dfit a) (dfit b) && oeqb Z.eqb (dkey a) (dkey b) && Nat.eqb (dskip a) (dskip b).
+Definition hs_key_b (e e' : hentry) : bool :=
+  oeqb Z.eqb (snd e) (snd e') && oeqb Z.eqb (dkey (fst e)) (dkey (fst e')) && Nat.eqb (dskip (fst e)) (dskip (fst e'))
+  && (dval (fst e) =? dval (fst e'))%Z
+  && match snd e with
+     | None => true
+     | Some r =>
+         dna_eqb (fst e') (fst e)
+         || match dfsn (fst e'), dfsn (fst e) with
+            | None, Some q => dna_eqb (fst e) (set_fed (fst e') q r)
+            | _, _ => false
+            end
+     end.
+Fixpoint hrk_b (h h' : list hentry) : bool :=
+  match h, h' with
+  | [], [] => true
+  | e :: t, e' :: t' => hs_key_b e e' && hrk_b t t'
+  | _, _ => false
+  end.
+
 Section Sim.
   Variable g : gen.
   Variable reward_of : Z -> Z.
@@ -498,7 +524,8 @@ Section Sim.
     | Some 1 =>
         match nth_error (r_hist g r) (r_ptr g r) with
         | Some (d, _) =>
-            [e_obs (obs g (recovered g (set_nth (r_ptr g r) (d, Some (reward_for reward_of d)) (r_hist g r))))]
+            let hu := set_nth (r_ptr g r) (d, Some (reward_for reward_of d)) (r_hist g r) in
+            [e_obs (obs g (recovered g hu)); ebool (hrk_b (r_hist g (step g reward_of r 1)) hu)]
         | None => []
         end
     | _ => []
@@ -519,7 +546,7 @@ Section Sim.
     else h0.
   Definition proposal_time (r : run_st g) (h0 : list hentry) : list tr :=
     if existsb (fun e => match snd e with Some _ => true | None => false end) h0
-    then [e_obs (obs g (recovered g h0))] else [].
+    then [e_obs (obs g (recovered g h0)); ebool (hrk_b (r_hist g r) h0)] else [].
 
   Definition snapshot (r : run_st g) (h0 : list hentry) (next : option Z) : tr :=
     let rec := recovered g (r_hist g r) in
